@@ -26,7 +26,8 @@ RULE = (
     "uncertainties; population and program names that contain each other) with 1-4 generated programs (targets, spend/unit cost/capacity/saturation/coverage series, outcomes with "
     "coverage interactions and explicit impact interactions between arbitrary subsets, coverage overwrites) x kind in {rt-books, rt-framework, binary, "
     "stateful (<=4 operations from copy/add-remove population/add-remove program/add-remove parameter/add-remove transfer/zero-uncertainty sample/reconcile/load "
-    "calibration), calib (edited calibration files)} plus the library files as static cases; oracle = explicit content projections (rtol 1e-14, exact on the second "
+    "calibration/entering an uncertainty, constant or year values where the table had no such column - directly, after a first write, or on objects re-read from their own "
+    "spreadsheets), calib (edited calibration files)} plus the library files as static cases; oracle = explicit content projections (rtol 1e-14, exact on the second "
     "trip), paired simulations (1e-9; bitwise for binary files and second trips), live object vs object rebuilt from its own export after every operation (simulation and direct evaluation of every program effect at joint coverages 1/0.6/0.3); "
     "non-trivial = (round trips) the objects contain an assumption, a sparse series and an uncertainty, (stateful) >= 1 editing operation was applied before the "
     "round trip, (calib) the file has an unknown or a missing entry; distinct = distinct case hash"
@@ -69,7 +70,7 @@ def _round15(x):
     return x
 
 
-OP_KINDS = ["remove_program", "remove_program", "reconcile", "remove_pop", "add_pop", "add_program", "remove_par", "add_par", "calib", "sample", "copy", "reconcile", "add_transfer", "remove_transfer"]
+OP_KINDS = ["edit", "edit", "edit", "remove_program", "remove_program", "reconcile", "remove_pop", "add_pop", "add_program", "remove_par", "add_par", "calib", "sample", "copy", "reconcile", "add_transfer", "remove_transfer"]
 
 
 @st.composite
@@ -100,6 +101,13 @@ def _op(draw, rnd):
     elif k == "add_transfer":
         op["value"] = H.number(draw, 0.0, 0.5)
         op["units"] = draw(st.sampled_from(["rate", "number", "duration"]))
+    elif k == "edit":
+        # enter content that needs an optional column (uncertainty / constant / year values), directly, after the objects were
+        # written once, or on objects that were read from their own spreadsheets (optionally with writer-chosen columns)
+        op["target"] = rnd.choice(["data", "data", "data", "transfer", "prog"])
+        op["what"] = rnd.choice(["sigma", "assumption", "assumption", "years"])
+        op["via"] = rnd.choice(["direct", "after-write", "after-reload", "after-reload", "after-auto-columns-reload"])
+        op["value"] = draw(st.sampled_from([0.5, 0.25, 0.75, 1.0, 0.125]))
     return op
 
 
@@ -763,11 +771,37 @@ def apply_op(s, op, v):
             raise Skip("no transfer")
         s.D.remove_transfer(names[i % len(names)])
         s.ps = _new_parset(s, s.ps)
+    elif k == "edit":
+        via = op["via"]
+        if via == "after-write":
+            s.D.to_spreadsheet(), s.pg.to_spreadsheet(), s.ps.calibration_spreadsheet()
+        elif via in ("after-reload", "after-auto-columns-reload"):
+            if via == "after-auto-columns-reload":
+                H.set_auto_columns(s.D)
+            try:
+                s.D = H.rt_data(s.D, s.F)
+                s.pg = H.rt_progset(s.pg, s.F, s.D)
+                s.ps = H.rt_parset(s.ps, s.F, s.D)
+            except Exception as e:
+                if _deliberate(e):
+                    raise Skip("objects cannot be reloaded from their spreadsheets (%s)" % type(e).__name__)
+                raise
+        cands = H.edit_candidates(s.D, s.pg, s.F, op["target"], op["what"])
+        if not cands:
+            raise Skip("no row where this content can be entered")
+        n_intro = sum(1 for c in cands if c[3])
+        label, ts, years, intro = cands[i % (n_intro or len(cands))]
+        value = 0.0 if op["what"] == "sigma" else op["value"]  # (stateful cases keep every uncertainty at 0 for the sample operation)
+        if not H.apply_edit(ts, years, op["what"], value):
+            raise Skip("table has no year columns")
+        op["_intro"] = intro
+        if op["target"] != "prog":
+            s.ps = _new_parset(s, s.ps)
     else:
         raise HarnessError("unknown op %r" % k)
 
 
-EDITING = {"add_pop", "remove_pop", "add_program", "remove_program", "remove_par", "add_par", "reconcile", "calib", "add_transfer", "remove_transfer", "sample"}
+EDITING = {"edit", "add_pop", "remove_pop", "add_program", "remove_program", "remove_par", "add_par", "reconcile", "calib", "add_transfer", "remove_transfer", "sample"}
 
 
 def _try(f):
@@ -874,6 +908,8 @@ def check_stateful(case):
         v.flush()
         s = t
         labels.append("op:" + name)
+        if op["op"] == "edit":
+            labels.append("edit:%s/%s/%s%s" % (op["target"], op["what"], op["via"], "/new-column" if op.pop("_intro", False) else ""))
         if op["op"] in EDITING:
             n_edit += 1
         r = check_state(s, v, name, case["exact"])
@@ -918,6 +954,31 @@ def check_lib(case):
         same &= _content(v, "progbook", H.proj_progset(pg), H.proj_progset(pg2), RTOL_CONTENT, "lib/content")
         pg3 = H.rt_progset(pg2, F, D3)
         _content(v, "progbook", H.proj_progset(pg2), H.proj_progset(pg3), 0.0, "lib/second-trip")
+    # content entered after loading (the files have no 'Uncertainty' column, many tables no 'Constant' column), with and without a write in between
+    import sciris as sc
+
+    for pre_write in (False, True):
+        De, pge = sc.dcp(D), sc.dcp(pg)
+        if pre_write:
+            De.to_spreadsheet()
+            if pge is not None:
+                pge.to_spreadsheet()
+        n_ed = 0
+        for target in ("data", "transfer", "prog"):
+            if target == "prog" and pge is None:
+                continue
+            for what in ("sigma", "assumption", "years"):
+                cands = H.edit_candidates(De, pge, F, target, what)
+                for label, ts, years, intro in cands[:2]:
+                    n_ed += bool(H.apply_edit(ts, years, what, 0.125 if what == "sigma" else (ts.vals[0] if ts.vals else ts.assumption)))
+        try:
+            De2 = H.rt_data(De, F)
+            _content(v, "databook", H.proj_data(De), H.proj_data(De2), RTOL_CONTENT, "lib/edited-after-load%s/content" % ("-and-write" if pre_write else ""))
+            if pge is not None:
+                _content(v, "progbook", H.proj_progset(pge), H.proj_progset(H.rt_progset(pge, F, De2)), RTOL_CONTENT, "lib/edited-after-load%s/content" % ("-and-write" if pre_write else ""))
+        except Exception as e:
+            v.add("lib/edited-after-load/raises/" + type(e).__name__, "(%s) library %s: after entering uncertainties / constants / year values the books cannot be written and read back: %r" % (_exc(e), name, e))
+        labels.append("lib:edits-after-load")
     # behaviour on a short horizon
     stg = at.ProjectSettings(sim_start=2000, sim_end=2006, sim_dt=0.25)
     ps, ps2 = at.ParameterSet(F, D, "default"), at.ParameterSet(F, D2, "default")
